@@ -93,4 +93,45 @@ def TMeta.refs (tm : TMeta) : List RHost := (tm.tring.getD []) ++ (tm.repl.map (
 def TMeta.strayRefs (tm : TMeta) (known : List RHost) : List Nat :=
   (tm.refs.filter (fun h => !known.contains h)).map (·.id)
 
+/-! ### schema events (events.go `handleSchemaEvent`): every SCHEMA_CHANGE frame drops the keyspace's entry of the
+session's schema cache (`schemaDescriber.clearSchema`); a keyspace-level frame also reaches the selection policy
+(`handleKeyspaceChange` → `policy.KeyspaceChanged`) -/
+
+inductive SchemaEv
+  | keyspace (ks : Nat)
+  | other (ks : Nat)       -- table / type / function / aggregate of that keyspace
+deriving DecidableEq, Repr
+
+def SchemaEv.ks : SchemaEv → Nat
+  | .keyspace k => k
+  | .other k => k
+
+structure SchemaSt where
+  cache : List Nat := []   -- keyspaces whose metadata the schema cache holds
+  tm : TMeta := {}
+
+def schemaStep (env : Env) (te : TEnv) (p : Policy) (s : SchemaSt) : SchemaEv → SchemaSt
+  | .keyspace k => ⟨s.cache.filter (· != k), (pstep env te ⟨p, s.tm⟩ (.keyspaceChanged k)).tm⟩
+  | .other k => ⟨s.cache.filter (· != k), s.tm⟩
+
+/-- `Session.handleSchemaEvent(frames)` -/
+def handleSchemaEvent (env : Env) (te : TEnv) (p : Policy) (s : SchemaSt) (b : List SchemaEv) : SchemaSt :=
+  b.foldl (schemaStep env te p) s
+
+inductive SchemaOp
+  | fill (ks : Nat)                -- a KeyspaceMetadata(ks) call filled the cache
+  | events (b : List SchemaEv)     -- one batch of the schema-event debouncer
+deriving Repr
+
+def schemaOp (env : Env) (te : TEnv) (p : Policy) (s : SchemaSt) : SchemaOp → SchemaSt
+  | .fill k => { s with cache := if s.cache.contains k then s.cache else k :: s.cache }
+  | .events b => handleSchemaEvent env te p s b
+
+/-- specification, on the history in REVERSE order (latest first): a keyspace is cached iff a fill is the latest
+thing that happened to it -/
+def cachedSpecRev (ks : Nat) : List SchemaOp → Bool
+  | [] => false
+  | .fill k :: t => k == ks || cachedSpecRev ks t
+  | .events b :: t => !(b.any (fun e => e.ks == ks)) && cachedSpecRev ks t
+
 end TokenMeta
